@@ -126,7 +126,7 @@ Theorem C15_wait_procs_partition : forall kos cb fuel order,
   NoDup gone /\ NoDup alive /\ (forall i, In i gone -> ~ In i alive) /\
   (forall i, (i < length kos)%nat <-> In i gone \/ In i alive) /\
   map fst (g_rc g) = rev gone /\
-  g_cb g = match cb with CbOk => rev gone | _ => [] end.
+  g_cb g = match cb with CbOk _ => rev gone | _ => [] end.
 Proof. exact wait_procs_partition. Qed.
 Print Assumptions C15_wait_procs_partition.
 
@@ -276,3 +276,20 @@ Theorem C15_popen_wait_no_status : forall W E pid st tmo fuel t0 r st' t' sl,
   (forall z, r <> RInt z) -> sub_rc st' = None.
 Proof. exact popen_wait_no_status. Qed.
 Print Assumptions C15_popen_wait_no_status.
+
+(* 11. the callback argument: presence is an option, never a truth test.  For EVERY callable -- a function, or a
+   falsy one (empty list subclass with __call__, __len__ = 0, __bool__ = False) -- the callback is called exactly
+   once for each gone process, in the order they were found gone; and a falsy callable gives the very same run
+   as a truthy one *)
+Theorem C15_wait_procs_callback_any_callable : forall kos truthy fuel order,
+  (forall r l, Permutation (order r l) l) ->
+  forall tmo rounds start gone alive g,
+  wait_procs kos (CbOk truthy) fuel order tmo rounds start = (None, gone, alive, g) ->
+  g_cb g = rev gone /\ NoDup gone.
+Proof. exact wait_procs_callback_any_callable. Qed.
+Print Assumptions C15_wait_procs_callback_any_callable.
+
+Theorem C15_wait_procs_truth_blind : forall kos fuel order b1 b2 tmo rounds start,
+  wait_procs kos (CbOk b1) fuel order tmo rounds start = wait_procs kos (CbOk b2) fuel order tmo rounds start.
+Proof. exact wait_procs_truth_blind. Qed.
+Print Assumptions C15_wait_procs_truth_blind.
